@@ -30,7 +30,7 @@ fn main() {
         d.act(&Action::Auto { a: 0, v: false }).await;
         let total = 200u64;
         for o in 1..=total {
-            d.act(&Action::Op { o, k: Kind::Tell, slot: 0, tmo: None }).await;
+            d.act(&Action::Op { o, k: Kind::Tell, slot: 0, tmo: None, fl: rsv_harness::script::Flavour::Async }).await;
         }
         let st = d.sh.st.lock().unwrap();
         let done = st.results.values().filter(|v| v.as_str() == "ok0").count();
